@@ -129,6 +129,8 @@ def make_method(spec, env, vf, body_lines, tag="x", extra_globals=None, ann_over
                 anns.pop(k, None)
             else:
                 anns[k] = v
+    if spec.get("ret"):
+        anns["return"] = _tx.ann(spec["ret"], env, spelling)      # a return annotation takes no part in dispatch
     fn.__annotations__ = anns
     fn.__vf_defaults__ = {d.name: d for d in defaults.values()}
     return fn, file
